@@ -934,6 +934,61 @@ def run_check(tier, seed):
                               dict(correspondence='C19/trig_reduce', expr=text, normal_form=nfs), failing_input=False)
     run.cov['correspondence_trig_reduce'] = dict(cases=len(texprs), disagree=tdis)
 
+    # ======== (3a'') identities with several side conditions: a parametrised integral with one recorded identity per sign case of
+    #                 the parameter (the distinguishing condition first, in the middle or last among two or three); the rule
+    #                 DefiniteIntegralIdentity is applied under every sign assumption and its result compared with quadrature
+    n_id = n_id_rewritten = 0
+    try:
+        from integral.context import Context as _Ctx
+        INTEG = 'INT x:[0,1]. abs(a * x)'
+        for _ in range(10 * scale):
+            others = r.sample(['a > -10', 'a < 10', 'a != 7'], r.choice([1, 2]))      # only the parameters of the integral can occur
+            pos = r.randrange(len(others) + 1)
+            idents = []
+            for sign_cond, value in (('a > 0', 'a / 2'), ('a < 0', '-a / 2'), ('a = 0', '0')):
+                cs = list(others)
+                cs.insert(pos, sign_cond)
+                idents.append(('(%s) = %s' % (INTEG, value), cs))
+            r.shuffle(idents)
+            for assumed, a_val in (('a > 0', mpf(2)), ('a < 0', mpf(-3)), ('a = 0', mpf(0)), (None, mpf(-1))):
+                cx = _Ctx()
+                for eq_, cs in idents:
+                    cx.add_definite_integral(iparser.parse_expr(eq_), Conditions([iparser.parse_expr(c_) for c_ in cs]))
+                for c_ in others + ([assumed] if assumed else []):
+                    cx.add_condition(c_)
+                e0 = iparser.parse_expr(INTEG)
+                try:
+                    res = with_timeout(10, lambda: rules.DefiniteIntegralIdentity().eval(e0, cx))
+                except Alarm:
+                    continue
+                except RecursionError:
+                    raise
+                except Exception as ex:
+                    run.stat('identity_exc:' + type(ex).__name__)
+                    continue
+                n_id += 1
+                run.count(('identity', tuple(others), pos, assumed), nontrivial='INT' not in str(res))
+                if 'INT' in str(res):
+                    continue            # not rewritten (the integral is still there)
+                n_id_rewritten += 1
+                env = {'a': a_val, 'b': mpf('0.5'), 'c': mpf(1)}
+                try:
+                    mp.dps = 30
+                    want, got = nev(e0, env), nev(res, env)
+                except (Undefined, ZeroDivisionError, ValueError, OverflowError):
+                    continue
+                if not close(want, got):
+                    run.violation('property', 'DefiniteIntegralIdentity rewrites %s to %s under %s, which changes the value at a = %s (identities recorded with conditions %s)'
+                                  % (INTEG, res, others + ([assumed] if assumed else []), a_val, [cs for _e, cs in idents]),
+                                  dict(integral=INTEG, result=str(res), assumptions=others + ([assumed] if assumed else []), identities=idents,
+                                       point={k: str(v) for k, v in env.items()}, expected=mpmath.nstr(want, 12), got=mpmath.nstr(got, 12)),
+                                  key='C19:DefiniteIntegralIdentity:conditions')
+    except RecursionError:
+        raise
+    except Exception as ex:
+        run.stat('identity_family:' + type(ex).__name__ + ':' + str(ex)[:80])
+    run.cov['search_identity_conditions'] = dict(applications=n_id, rewritten=n_id_rewritten)
+
     # ======== (3b) limits at infinity whose value depends on the side from which a sub-term approaches its limit
     run.cov['search_limits'] = limits_family(run, r, 150 * scale)
 
